@@ -147,6 +147,32 @@ class NameGenerator:
         return name
 
 
+def _retarget_exiting(
+    region: RegionBlock, renamed: Dict[str, str], appended: Tuple[str, ...]
+) -> None:
+    """Apply a re-targeting of a region block to its exiting block.
+
+    The jump targets of a region block mirror those of the exiting block
+    inside it. Whenever the former are re-targeted, the latter (recursively,
+    if the exiting block is itself a region) must be updated too. Backedges
+    are left alone.
+    """
+    assert region.subregion is not None and region.exiting is not None
+    exiting = region.subregion.graph.pop(region.exiting)
+    jt: List[str] = []
+    for target in exiting._jump_targets:
+        if target in renamed and target not in exiting.backedges:
+            target = renamed[target]
+            if target in jt:
+                continue
+        jt.append(target)
+    jt.extend(appended)
+    exiting = exiting.replace_jump_targets(jump_targets=tuple(jt))
+    if isinstance(exiting, RegionBlock):
+        _retarget_exiting(exiting, renamed, appended)
+    region.subregion.add_block(exiting)
+
+
 @dataclass(frozen=True)
 class SCFG(Sized):
     """SCFG (Structured Control Flow Graph) class.
@@ -550,6 +576,13 @@ class SCFG(Sized):
                             jt.pop(jt.index(s))
             else:
                 jt.append(new_name)
+            if isinstance(block, RegionBlock):
+                # keep the exiting block(s) of the region in sync
+                _retarget_exiting(
+                    block,
+                    {s: new_name for s in successors},
+                    () if successors else (new_name,),
+                )
             self.add_block(block.replace_jump_targets(jump_targets=tuple(jt)))
 
     def insert_SyntheticExit(
@@ -635,6 +668,7 @@ class SCFG(Sized):
         for name in predecessors:
             block = self.graph[name]
             jt = list(block.jump_targets)
+            renamed: Dict[str, str] = {}
             # Need to create synthetic assignments for each arc from a
             # predecessors to a successor and insert it between the predecessor
             # and the newly created block
@@ -656,6 +690,10 @@ class SCFG(Sized):
                 branch_variable_value += 1
                 # replace previous successor with synth_assign
                 jt[jt.index(s)] = synth_assign
+                renamed[s] = synth_assign
+            if isinstance(block, RegionBlock):
+                # keep the exiting block(s) of the region in sync
+                _retarget_exiting(block, renamed, ())
             # finally, replace the jump_targets
             self.add_block(
                 self.graph.pop(name).replace_jump_targets(
